@@ -21,6 +21,13 @@ def shapes(tier):
             J.append(job([S(k, 1, dl=dl), STEP]))
             J.append(job([S(k, 1, dl=dl), UNTIL("abs")], max_steps=3))
             J.append(job([S(k, 1, dl=dl), STEP, STEP]))
+    # the same through the event API: Scheduler::schedule_*event (origin 0) and Context::schedule_*event (model origins)
+    for k in KINDS:
+        for dl in dls:
+            for o in (0, 1, 2):
+                J.append(job([S(k, 1, dl=dl, origin=o, api="event")]))
+                J.append(job([S("once", 9, dl="abs"), STEP, S(k, 1, dl=dl, origin=o, api="event"), STEP]))
+                J.append(job([S(k, 1, dl=dl, origin=o, api="event"), UNTIL("abs")], max_steps=3))
     # a rejected request has no effect: other actions still fire as if it had not been made
     for k in ("once", "periodic"):
         for dl in dls:
@@ -30,6 +37,15 @@ def shapes(tier):
         for dl in dls:
             J.append(job([S("once", 1, dl="abs", effect=dict(op="sched", kind=k, dl=dl, id=2)), STEP, STEP]))
             J.append(job([S("once", 1, dl="abs", effect=dict(op="sched", kind=k, dl=dl, id=2)), UNTIL("abs")], max_steps=3))
+    # requests issued through a Scheduler handle while the stepping thread is inside Clock::synchronize, i.e. at the one
+    # point of a step where it does not hold the queue lock and no handler runs (another thread's request lands there)
+    for k in ("once", "periodic", "keyed"):
+        for dl in dls:
+            req = dict(op="sched", kind=k, dl=dl, id=7)
+            J.append(job([S("once", 1), STEP, STEP], clock=[req]))
+            J.append(job([S("once", 1), S("once", 2, dl="rel"), STEP, STEP, STEP], clock=["ok", req]))
+            J.append(job([S("once", 1), UNTIL("abs"), STEP], clock=[req], max_steps=3))
+            J.append(job([UNTIL("abs"), STEP], clock=[req]))
     if tier == "thorough":
         for k1 in KINDS:
             for k2 in KINDS:
